@@ -843,7 +843,7 @@ fn payloads() -> Vec<Payload> {
 fn collect_body(resp: hyper::Response<dropshot::Body>) -> (u16, Vec<(String, String)>, Vec<u8>) {
     use http_body_util::BodyExt;
     let status = resp.status().as_u16();
-    let hs = resp.headers().iter().map(|(k, v)| (k.as_str().to_string(), v.to_str().unwrap_or("?").to_string())).collect();
+    let hs = resp.headers().iter().map(|(k, v)| (k.as_str().to_string(), String::from_utf8_lossy(v.as_bytes()).into_owned())).collect();
     let rt = tokio::runtime::Builder::new_current_thread().enable_all().build().unwrap();
     let bytes = rt.block_on(async move { resp.into_body().collect().await.map(|c| c.to_bytes().to_vec()).unwrap_or_default() });
     (status, hs, bytes)
